@@ -676,3 +676,133 @@ fn verif_c07_alloc() {
         panic!("C07 allocation violated: {first}");
     }
 }
+
+// ---------------------------------------------------------------------------------------------------------------------------
+// C10 (thread level): a stream or bind request whose caller gives up (the future is dropped on an application thread) while the
+// connection task, on its own thread, handles the peer's answer to that very request. Whatever the interleaving, the task's frame
+// handler must return Ok - an error return ends the connection and every other stream with it - and a bystander flow keeps its slot.
+
+#[derive(Clone, Debug)]
+struct AbandonScenario {
+    bind: bool,
+    /// the peer's frame on the request's flow id: 0 Acknowledge, 1 Finish, 2 Reset, 3 Push
+    answer: u8,
+    /// a second, identical frame follows (duplicate answer)
+    twice: bool,
+}
+
+fn abandon_execute(sc: &AbandonScenario) {
+    use crate::frame::Frame;
+    use crate::FlowSlot;
+    let rng = ScriptRng { script: [5u32].into_iter().collect(), state: 99 };
+    let (mux, taskdata) = Multiplexor::new_detailed::<_, NoClock>(DummyWs, Options::new().rwnd(4).stream_buffer_size(16).bind_buffer_size(4), rng);
+    let crate::task::TaskData { task, tx_msg_rx: _trx, dropped_flows_rx: _drx } = taskdata;
+    let mux = std::sync::Arc::new(mux);
+    let task = std::sync::Arc::new(task);
+    // a bystander stream opened by the peer
+    shuttle::future::block_on(task.con_recv_new_stream(77, bytes::Bytes::from_static(b"by"), 1, 4)).expect("bystander");
+    // the request, polled once: its slot is in the table and its frame is queued
+    let m = mux.clone();
+    let bind = sc.bind;
+    let mut fut: core::pin::Pin<alloc::boxed::Box<dyn core::future::Future<Output = ()> + Send>> = if bind {
+        alloc::boxed::Box::pin(async move {
+            let _ = m.request_bind(b"h", 80, crate::frame::BindType::Stream).await;
+        })
+    } else {
+        alloc::boxed::Box::pin(async move {
+            let _ = m.new_stream_channel(b"h", 80).await;
+        })
+    };
+    let waker = Waker::noop();
+    let mut cx = Context::from_waker(waker);
+    assert!(fut.as_mut().poll(&mut cx).is_pending(), "C10-abandon (harness): the request resolved without an answer");
+    let id = {
+        let flows = mux.flows.read();
+        let mut ids: Vec<u32> = flows.iter().filter(|(_, s)| matches!(s, FlowSlot::Requested(_) | FlowSlot::BindRequested(_))).map(|(k, _)| *k).collect();
+        assert!(ids.len() == 1, "C10-abandon (harness): expected one pending slot, found {ids:?}");
+        ids.pop().unwrap()
+    };
+    let abandon = shuttle::thread::spawn(move || drop(fut));
+    let t2 = task.clone();
+    let (answer, twice) = (sc.answer, sc.twice);
+    let peer = shuttle::thread::spawn(move || {
+        let mk = || match answer {
+            0 => Frame::new_acknowledge(id, 4),
+            1 => Frame::new_finish(id),
+            2 => Frame::new_reset(id),
+            _ => Frame::new_push_owned(id, bytes::Bytes::from_static(b"x")),
+        };
+        let mut results = vec![];
+        for _ in 0..(1 + usize::from(twice)) {
+            results.push(shuttle::future::block_on(t2.process_frame(mk(), false)).map_err(|e| format!("{e:?}")));
+        }
+        results
+    });
+    abandon.join().unwrap();
+    let results = peer.join().unwrap();
+    for (n, r) in results.iter().enumerate() {
+        assert!(r.is_ok(), "C10-abandon: the connection task's frame handler returned {r:?} for frame {n} (scenario {sc:?}): the caller of the request gave up on another thread while the peer's answer was being handled, and the connection ends for every other stream");
+    }
+    let flows = mux.flows.read();
+    assert!(matches!(flows.get(&77), Some(FlowSlot::Established(_))), "C10-abandon: the bystander flow lost its slot (scenario {sc:?})");
+    drop(flows);
+    RUNS.fetch_add(1, StdOrdering::Relaxed);
+}
+
+#[test]
+fn verif_c10_abandon() {
+    std::println!();
+    let tier = env("VERIF_TIER").unwrap_or_else(|| "quick".into());
+    let thorough = tier == "thorough";
+    let seed: u64 = env("VERIF_SEED").and_then(|s| s.parse::<i64>().ok()).map(|x| x as u64).unwrap_or(20_260_924);
+    let out_dir = env("VERIF_C12_OUT").unwrap_or_else(|| "/verif".into());
+    let t0 = std::time::Instant::now();
+    let mut scs = vec![];
+    for bind in [false, true] {
+        for answer in 0..4u8 {
+            for twice in [false, true] {
+                scs.push(AbandonScenario { bind, answer, twice });
+            }
+        }
+    }
+    let iters = if thorough { 40_000 } else { 4_000 };
+    let mut violations = 0;
+    let mut first = String::new();
+    for (k, sc) in scs.iter().enumerate() {
+        for mode in 0..2 {
+            let sc2 = sc.clone();
+            let s = seed ^ ((k as u64) << 8) ^ mode;
+            let res = std::panic::catch_unwind(move || match mode {
+                0 => shuttle::Runner::new(shuttle::scheduler::RandomScheduler::new_from_seed(s, iters), shuttle::Config::new()).run(move || abandon_execute(&sc2)),
+                _ => shuttle::Runner::new(shuttle::scheduler::PctScheduler::new_from_seed(s, 3, iters / 2), shuttle::Config::new()).run(move || abandon_execute(&sc2)),
+            });
+            if let Err(p) = res {
+                violations += 1;
+                let msg = p.downcast_ref::<String>().cloned().or_else(|| p.downcast_ref::<&str>().map(|s| (*s).into())).unwrap_or_else(|| "panic".into());
+                let replay = format!("{out_dir}/replays/C10-abandon-{k}-{mode}.json");
+                std::fs::create_dir_all(format!("{out_dir}/replays")).ok();
+                std::fs::write(&replay, format!("{{\n \"property\": \"C10\",\n \"section\": \"thread-level-abandon\",\n \"scenario\": \"{}\",\n \"msg\": \"{}\"\n}}\n", json_escape(&format!("{sc:?}")), json_escape(msg.lines().next().unwrap_or("")))).ok();
+                std::println!("VIOLATION property=C10 replay={replay}");
+                std::println!("  section=thread-level-abandon : {}", msg.lines().next().unwrap_or(""));
+                if first.is_empty() {
+                    first = msg;
+                }
+                break;
+            }
+        }
+        if violations >= 2 {
+            break;
+        }
+    }
+    let runs = RUNS.load(StdOrdering::Relaxed);
+    std::fs::create_dir_all(format!("{out_dir}/target")).ok();
+    std::fs::write(
+        format!("{out_dir}/target/c10_abandon.json"),
+        format!("{{\"engine\": \"shuttle (random + PCT depth 3) over the crate's lock shim\", \"scenarios\": {}, \"executions\": {runs}, \"rule\": \"a stream or bind request is abandoned (future dropped) on an application thread while the connection task handles the peer's Acknowledge / Finish / Reset / Push on its flow id (once or twice) on another thread: the frame handler must return Ok in every interleaving and the bystander flow keeps its slot\", \"violations\": {violations}, \"wall_s\": {:.2}}}", scs.len(), t0.elapsed().as_secs_f64()),
+    )
+    .ok();
+    std::println!("RESULT property=C10 section=thread-level-abandon executions={runs} violations={violations} wall={:.1}s", t0.elapsed().as_secs_f64());
+    if violations > 0 {
+        panic!("C10 abandon violated: {first}");
+    }
+}
